@@ -22,13 +22,33 @@ theorem headTime_eq_none {p : Part V} : headTime p = none ↔ p = [] := by
 
 theorem minOpt_some_le {a b : Option Int} {t : Int} (h : minOpt a b = some t) :
     (∀ x, a = some x → t ≤ x) ∧ (∀ x, b = some x → t ≤ x) ∧ (a = some t ∨ b = some t) := by
-  cases a <;> cases b <;> simp [minOpt] at h ⊢
-  · exact h
-  · exact h
-  · rename_i x y
-    split at h <;> subst h
-    · exact ⟨by omega, Or.inr rfl⟩
-    · exact ⟨by omega, Or.inl rfl⟩
+  cases a with
+  | none =>
+    cases b with
+    | none => simp [minOpt] at h
+    | some y =>
+      simp only [minOpt, Option.some.injEq] at h
+      subst h
+      refine ⟨?_, ?_, Or.inr rfl⟩
+      · intro x hx; simp at hx
+      · intro x hx; simp at hx; omega
+  | some x =>
+    cases b with
+    | none =>
+      simp only [minOpt, Option.some.injEq] at h
+      subst h
+      refine ⟨?_, ?_, Or.inl rfl⟩
+      · intro z hz; simp at hz; omega
+      · intro z hz; simp at hz
+    | some y =>
+      simp only [minOpt, Option.some.injEq] at h
+      split at h <;> subst h
+      · refine ⟨?_, ?_, Or.inr rfl⟩
+        · intro z hz; simp at hz; omega
+        · intro z hz; simp at hz; omega
+      · refine ⟨?_, ?_, Or.inl rfl⟩
+        · intro z hz; simp at hz; omega
+        · intro z hz; simp at hz; omega
 
 theorem minOpt_none {a b : Option Int} (h : minOpt a b = none) : a = none ∧ b = none := by
   cases a <;> cases b <;> simp [minOpt] at h ⊢
@@ -99,7 +119,7 @@ theorem advance_sorted {t : Int} {p : Part V} (hs : PartSorted p) : PartSorted (
   | nil => exact hs
   | cons e tl =>
     obtain ⟨t', v⟩ := e
-    unfold advance
+    simp only [advance]
     split
     · exact (List.pairwise_cons.mp hs).2
     · exact hs
@@ -112,7 +132,7 @@ theorem advance_gt {t : Int} {p : Part V} (hs : PartSorted p) (hle : ∀ t', hea
     obtain ⟨t', v⟩ := e
     have hle' : t ≤ t' := hle t' (by simp [headTime])
     have htl := tail_gt hs
-    unfold advance
+    simp only [advance]
     split
     · rename_i h
       subst h
@@ -127,10 +147,10 @@ theorem advance_gt {t : Int} {p : Part V} (hs : PartSorted p) (hle : ∀ t', hea
 
 theorem mem_advance {t : Int} {p : Part V} {e : Int × V} (h : e ∈ advance t p) : e ∈ p := by
   cases p with
-  | nil => simpa [advance] using h
+  | nil => simp [advance] at h
   | cons e0 tl =>
     obtain ⟨t', v⟩ := e0
-    unfold advance at h
+    simp only [advance] at h
     split at h
     · exact List.mem_cons_of_mem _ h
     · exact h
@@ -140,7 +160,7 @@ theorem mem_of_ne {t : Int} {p : Part V} {e : Int × V} (h : e ∈ p) (hne : e.1
   | nil => simp at h
   | cons e0 tl =>
     obtain ⟨t', v⟩ := e0
-    unfold advance
+    simp only [advance]
     split
     · rename_i ht
       rcases List.mem_cons.mp h with rfl | h
@@ -154,7 +174,7 @@ theorem lookup_advance {t t'' : Int} {p : Part V} (hne : t'' ≠ t) :
   | nil => rfl
   | cons e0 tl =>
     obtain ⟨t', v⟩ := e0
-    unfold advance
+    simp only [advance]
     split
     · rename_i ht
       subst ht
@@ -167,7 +187,7 @@ theorem advance_length_le (t : Int) (p : Part V) : (advance t p).length ≤ p.le
   | nil => simp [advance]
   | cons e0 tl =>
     obtain ⟨t', v⟩ := e0
-    unfold advance
+    simp only [advance]
     split <;> simp
 
 theorem advance_length_lt {t : Int} {p : Part V} (h : headTime p = some t) : (advance t p).length < p.length := by
